@@ -166,16 +166,15 @@ def _completed(evs: tuple) -> bool:
 
 
 def single_comparison(prog: Program, module: str, proc: Proc, rule: str, ev: Evidence, out: list[Finding]) -> None:
-    mi = prog.modules.get(module)
-    if mi is None:
-        raise AnalysisError(f"{module} not found")
-    cmps = []
-    for n in ast.walk(mi.tree):
-        if isinstance(n, ast.Compare):
-            s = ast.unparse(n)
-            if proc.counter_attr in s and proc.limit in s:
-                cmps.append(n)
-    ok = len(cmps) == 1
-    ev.inst(rule, f"{proc.name} | exactly one comparison relates {proc.counter_attr} and {proc.limit} in {module}: found {len(cmps)}", "ok" if ok else "violation")
-    if not ok:
-        out.append(Finding(rule, f"{proc.which} handler | {proc.name} | {len(cmps)} comparisons of count and limit", f"{len(cmps)} comparisons relate {proc.counter_attr} and {proc.limit} (expected exactly one)", str(mi.path)))
+    """evidence only: how many syntactic comparisons relate the counter and the limit, anywhere in the package.  The
+    deciding rule is the per-edge threshold rule above (every expiry edge of the ATS carries the comparison that was
+    actually taken); a count here can change with any refactoring (helper methods on the parameter classes, aliases) and
+    is therefore never a finding."""
+    n = 0
+    for mi in prog.modules.values():
+        for c in ast.walk(mi.tree):
+            if isinstance(c, ast.Compare):
+                s = ast.unparse(c)
+                if proc.counter_attr in s and proc.limit in s:
+                    n += 1
+    ev.inst(rule, f"{proc.name} | syntactic comparisons relating {proc.counter_attr} and {proc.limit} in the package: {n} (informative)", "ok")
